@@ -23,7 +23,11 @@ def to_term(ctx: Ctx, e, sym):
         if e.is_Rational:
             return RV(Fraction(int(e.p), int(e.q)))
         if e.is_Float:
-            return RV(kappa_float(float(e)))
+            try:
+                return RV(kappa_float(float(e)))
+            except ValueError:
+                # sympy folded an overflowing constant (exp of a huge number) to inf / nan: float overflow, outside every claim
+                raise Unsupported(f"non-finite literal {e}")
         if e is sp.pi:
             return c.pi
         if e is sp.E:
